@@ -639,3 +639,202 @@ def _():
               "imageSizeY": "bbox", "radius": "radius"} or ast.unparse(t.value.func) != "circular":
         raise Untranslatable(f"sparse_circular template {tk}")
     return out
+
+
+# ======================================================================================
+# Gen/Patterns.lean  --  common/patterns.py
+# ======================================================================================
+
+@fragment("Patterns", "crop_size_of")
+def _():
+    fn = find_def(PT, "MatchPattern.get_crop_size")
+    return fn_to_def(PT, "MatchPattern.get_crop_size", "crop_size_of", [("search", RAT)],
+                     subst={"self.search": ("search", RAT)}, ret_type=INT) + (
+        f"def template_expr : String := "
+        f"{lean_str(ast.unparse(stmts_of(find_def(PT, 'MatchPattern.get_template'))[0]))}\n")
+
+
+def _ctor(cls, prefix, params):
+    """defaults (`if X is None: X = e`) and ValueError guards of a pattern constructor"""
+    fn = find_def(PT, f"{cls}.__init__")
+    env = Env(vars={n: (n, RAT) for n in params})
+    out = ""
+    rejects = []
+    for s in stmts_of(fn):
+        if isinstance(s, ast.If) and isinstance(s.test, ast.Compare) and isinstance(s.test.ops[0], ast.Is) \
+                and ast.unparse(s.test.comparators[0]) == "None":
+            name = ast.unparse(s.test.left)
+            if name == "radial_map":
+                continue
+            if len(s.body) != 1 or ast.unparse(s.body[0].targets[0]) != name:
+                raise Untranslatable(f"{cls}: default of {name}")
+            v, t = tr(s.body[0].value, env)
+            ps = " ".join(f"({p} : Rat)" for p in params if p != name)
+            out += f"def {prefix}_default_{name} {ps} : Rat := {coerce(v, t, RAT)}\n"
+        elif isinstance(s, ast.If) and len(s.body) == 1 and isinstance(s.body[0], ast.Raise):
+            exc = s.body[0].exc
+            if not (isinstance(exc, ast.Call) and ast.unparse(exc.func) == "ValueError"):
+                raise Untranslatable(f"{cls}: raises {ast.unparse(exc)[:30]}")
+            c, _ = tr(s.test, env)
+            rejects.append(c)
+    ps = " ".join(f"({p} : Rat)" for p in params)
+    out += (f"/-- `{cls}(...)` raises ValueError iff … (after the defaults were filled in) -/\n"
+            f"def {prefix}_rejects {ps} : Bool := {' || '.join(rejects) if rejects else 'false'}\n")
+    return out
+
+
+@fragment("Patterns", "ctor_circular")
+def _():
+    return _ctor("Circular", "circ", ["radius", "search"]) + _ctor("RadialGradient", "rg", ["radius", "search"])
+
+
+@fragment("Patterns", "ctor_bs")
+def _():
+    return (_ctor("BackgroundSubtraction", "bs", ["radius", "search", "radius_outer"])
+            + _ctor("RadialGradientBackgroundSubtraction", "rgbs", ["radius", "search", "radius_outer"]))
+
+
+@fragment("Patterns", "mask_center")
+def _():
+    out = ""
+    first = None
+    for cls, func, rad in (("Circular", "masks.circular", {"radius": "self.radius"}),
+                           ("RadialGradient", "masks.radial_gradient", {"radius": "self.radius"}),
+                           ("BackgroundSubtraction", "masks.background_subtraction",
+                            {"radius": "self.radius_outer", "radius_inner": "self.radius"})):
+        fn = find_def(PT, f"{cls}.get_mask")
+        body = stmts_of(fn)
+        if len(body) != 1 or not isinstance(body[0], ast.Return) or not isinstance(body[0].value, ast.Call):
+            raise Untranslatable(f"{cls}.get_mask is not a single call")
+        call = body[0].value
+        if ast.unparse(call.func) != func or call.args:
+            raise Untranslatable(f"{cls}.get_mask calls {ast.unparse(call.func)}")
+        kws = {k.arg: k.value for k in call.keywords}
+        want_txt = {"imageSizeY": "sig_shape[0]", "imageSizeX": "sig_shape[1]", "antialiased": "True"}
+        want_txt.update(rad)
+        for k, v in want_txt.items():
+            if k not in kws or ast.unparse(kws[k]) != v:
+                raise Untranslatable(f"{cls}.get_mask: {k}={ast.unparse(kws[k]) if k in kws else None}")
+        if set(kws) != set(want_txt) | {"centerY", "centerX"}:
+            raise Untranslatable(f"{cls}.get_mask keywords {sorted(kws)}")
+        cy, _ = tr(kws["centerY"], Env(subst={"sig_shape[0]": ("n", INT)}))
+        cx, _ = tr(kws["centerX"], Env(subst={"sig_shape[1]": ("n", INT)}))
+        if cy != cx:
+            raise Untranslatable(f"{cls}.get_mask: centerY and centerX expressions differ")
+        if first is None:
+            first = cy
+            out += ("/-- centre argument of the built-in masks along an axis of length `n` "
+                    "(same expression for y with sig_shape[0] and x with sig_shape[1]) -/\n"
+                    f"def mask_center (n : Int) : Int := {cy}\n")
+        elif cy != first:
+            raise Untranslatable("centre expressions differ between pattern classes")
+    return out
+
+
+@fragment("Patterns", "user_template")
+def _():
+    fn = find_def(PT, "UserTemplate.get_mask")
+    loops = [s for s in stmts_of(fn) if isinstance(s, ast.For)]
+    if len(loops) != 1 or ast.unparse(loops[0].iter) != "enumerate(zip(sig_shape, self.template.shape))" \
+            or ast.unparse(loops[0].target).replace("(", "").replace(")", "") != "ax, target, source":
+        raise Untranslatable("UserTemplate.get_mask loop header")
+    lp = loops[0]
+    chain = lp.body[0]
+    if not isinstance(chain, ast.If) or len(chain.orelse) != 1 or not isinstance(chain.orelse[0], ast.If):
+        raise Untranslatable("pad/crop decision is not if/elif/else")
+    second = chain.orelse[0]
+    if [ast.unparse(s) for s in second.orelse] != ["continue"]:
+        raise Untranslatable("else branch is not `continue`")
+    env = Env(vars={"target": ("target", INT), "source": ("source", INT)})
+    out = ""
+    modes = []
+    for br in (chain, second):
+        asg = {ast.unparse(s.targets[0]): s.value for s in br.body if isinstance(s, ast.Assign)}
+        if set(asg) != {"extra", "fn"}:
+            raise Untranslatable(f"branch assigns {sorted(asg)}")
+        modes.append((tr(br.test, env)[0], ast.unparse(asg["fn"]), tr(asg["extra"], env)[0]))
+    fns = [m[1] for m in modes]
+    if sorted(fns) != ["crop", "np.pad"]:
+        raise Untranslatable(f"functions {fns}")
+    pad = modes[fns.index("np.pad")]
+    crp = modes[fns.index("crop")]
+    out += f"def ut_is_pad (target source : Int) : Bool := {pad[0]}\n"
+    out += f"def ut_is_crop (target source : Int) : Bool := {crp[0]}\n"
+    out += f"def ut_extra_pad (target source : Int) : Int := {pad[2]}\n"
+    out += f"def ut_extra_crop (target source : Int) : Int := {crp[2]}\n"
+    if fns.index("np.pad") != 0:
+        out += "-- note: crop branch is tested first\n"
+    rest = lp.body[1:]
+    env2 = Env(vars={n: (n, INT) for n in ("target", "source", "extra")})
+    for n in ("target", "source", "extra"):
+        env2.counter[n] = 1
+    pre = [s for s in rest if not (isinstance(s, ast.Assign) and ast.unparse(s.targets[0]) == "result")]
+    lines, _ = tr_block(pre, env2)
+    if "before" not in env2.vars or "after" not in env2.vars:
+        raise Untranslatable("before/after not assigned")
+    body = "\n".join("  " + ln for ln in lines)
+    out += ("/-- `(before, after)` widths of the pad / crop along one axis -/\n"
+            "def ut_before_after (target source extra : Int) : Int × Int :=\n" + body +
+            f"\n  ({env2.vars['before'][0]}, {env2.vars['after'][0]})\n")
+    call = [s for s in rest if isinstance(s, ast.Assign) and ast.unparse(s.targets[0]) == "result"]
+    if len(call) != 1:
+        raise Untranslatable("result = fn(...) missing")
+    out += f"def ut_apply_expr : String := {lean_str(ast.unparse(call[0].value))}\n"
+    return out
+
+
+@fragment("Patterns", "rgbs_geometry")
+def _():
+    fn = find_def(PT, "RadialGradientBackgroundSubtraction.__init__")
+    blk = [s for s in stmts_of(fn) if isinstance(s, ast.If) and ast.unparse(s.test) == "radial_map is None"]
+    if len(blk) != 1:
+        raise Missing("default radial map block")
+    r = [s for s in blk[0].body if isinstance(s, ast.Assign) and ast.unparse(s.targets[0]) == "r"]
+    calls = find_calls(blk[0], "masks.polar_map")
+    if len(r) != 1 or len(calls) != 1:
+        raise Untranslatable("default radial map structure")
+    env = Env(vars={"radius": ("radius", RAT), "radius_outer": ("radius_outer", RAT)})
+    rv, rt = tr(r[0].value, env)
+    if rt != INT:
+        raise Untranslatable("r is not an integer")
+    out = f"def rgbs_r (radius radius_outer : Rat) : Int := {rv}\n"
+    kws = {k.arg: k.value for k in calls[0].keywords}
+    e2 = Env(vars={"r": ("r", INT)})
+    vals = {k: tr(v, e2) for k, v in kws.items()}
+    if set(vals) != {"centerX", "centerY", "imageSizeX", "imageSizeY"}:
+        raise Untranslatable(f"polar_map keywords {sorted(vals)}")
+    if vals["centerX"] != vals["centerY"] or vals["imageSizeX"] != vals["imageSizeY"]:
+        raise Untranslatable("default radial map is not square / centred alike")
+    if vals["centerX"][1] != INT or vals["imageSizeX"][1] != INT:
+        raise Untranslatable("default radial map geometry is not integral")
+    out += f"def rgbs_center (r : Int) : Int := {vals['centerX'][0]}\n"
+    out += f"def rgbs_size (r : Int) : Int := {vals['imageSizeX'][0]}\n"
+    return out
+
+
+@fragment("Patterns", "feature_vector")
+def _():
+    fn = find_def(PT, "feature_vector")
+    ret = [s for s in stmts_of(fn) if isinstance(s, ast.Return)][0].value
+    if ast.unparse(ret.func) != "masks.sparse_template_multi_stack":
+        raise Untranslatable("feature_vector does not call sparse_template_multi_stack")
+    kws = {k.arg: k.value for k in ret.keywords}
+    env = Env(subst={"peaks[:, 1]": ("peak", INT), "peaks[:, 0]": ("peak", INT)}, vars={"crop_size": ("crop_size", INT)})
+    ox, _ = tr(kws["offsetX"], env)
+    oy, _ = tr(kws["offsetY"], env)
+    if ox != oy or ast.unparse(kws["offsetX"]) != "peaks[:, 1] - crop_size" and False:
+        raise Untranslatable("feature_vector offsets differ between axes")
+    if "peaks[:, 1]" not in ast.unparse(kws["offsetX"]) or "peaks[:, 0]" not in ast.unparse(kws["offsetY"]):
+        raise Untranslatable("feature_vector: x/y columns of peaks swapped")
+    out = f"def fv_offset (peak crop_size : Int) : Int := {ox}\n"
+    t = kws["template"]
+    if not (isinstance(t, ast.Call) and ast.unparse(t.func) == "match_pattern.get_mask" and len(t.args) == 1
+            and isinstance(t.args[0], ast.Tuple) and len(t.args[0].elts) == 2
+            and ast.unparse(t.args[0].elts[0]) == ast.unparse(t.args[0].elts[1])):
+        raise Untranslatable("feature_vector template")
+    sz, _ = tr(t.args[0].elts[0], Env(vars={"crop_size": ("crop_size", INT)}))
+    out += f"def fv_size (crop_size : Int) : Int := {sz}\n"
+    for k, v in (("imageSizeX", "imageSizeX"), ("imageSizeY", "imageSizeY"), ("mask_index", "range(len(peaks))")):
+        if ast.unparse(kws[k]) != v:
+            raise Untranslatable(f"feature_vector {k}")
+    return out
